@@ -1628,12 +1628,18 @@ impl Bgi {
             for c in str.chars() {
                 if let Some(glyph) = DEFAULT_BITFONT.get_glyph(c) {
                     for y in 0..8 {
-                        let mut pos = ((yf + y) * self.window.width + xf) as usize;
+                        let py = yf + y;
+                        if py < 0 || py >= self.window.height {
+                            continue;
+                        }
                         for x in 0..8 {
-                            if glyph.data[y as usize] & (1 << (7 - x)) != 0 {
-                                self.screen[pos] = self.color;
+                            let px = xf + x;
+                            if px < 0 || px >= self.window.width {
+                                continue;
                             }
-                            pos += 1;
+                            if glyph.data[y as usize] & (1 << (7 - x)) != 0 {
+                                self.screen[(py * self.window.width + px) as usize] = self.color;
+                            }
                         }
                     }
                     xf += 8;
